@@ -1102,7 +1102,7 @@ theorem C10_usage_pipeline (nw : Network) (hn : NetHyp nw) (o : Solve.Oracle)
 theorem C10_usage_candidates (nw : Network) (hn : NetHyp nw) {limit threshold : Option Nat} {s : Schedule}
     {last : SwapInfo} {cands : List Swaps.Candidate} (hinv : InvU nw s)
     (h : Swaps.neighborsOf nw limit threshold s last = .ok cands) : ∀ c ∈ cands, InvU nw c.sched :=
-  C11A.neighbors_invF (stepInv_usage hn) hinv h
+  C11A.neighbors_invF (stepInv_usage hn).toStepInv0 hinv h
 
 /-- what the invariant says about the counters the depot check reads: a vehicle counted at a depot
     has a tour that starts there, and conversely -/
